@@ -65,6 +65,7 @@ struct Choice {
 
 struct Global {
   std::vector<Scenario> scenarios;
+  std::vector<std::pair<std::string, CommandFn>> commands;
   // per run configuration
   Mode mode = Mode::kDfs;
   std::uint64_t seed = 1;
@@ -880,7 +881,13 @@ void Ctx::EnableWeakFail(int budget) {
 }
 
 void Register(const Scenario& s) {
+  HookGuard hg;
   G().scenarios.push_back(s);
+}
+
+void RegisterCommand(const char* name, CommandFn fn) {
+  HookGuard hg;
+  G().commands.emplace_back(name, fn);
 }
 
 AllocStats GetAllocStats() {
@@ -911,6 +918,12 @@ int Main(int argc, char** argv) {
       std::printf("%s\t%s\n", s.name, s.help);
     }
     return 0;
+  }
+  for (auto& c : g.commands) {
+    if (c.first == argv[1]) {
+      InstallHooks();
+      return c.second(argc - 2, argv + 2);
+    }
   }
   const Scenario* sc = nullptr;
   for (auto& s : g.scenarios) {
